@@ -32,7 +32,18 @@ def sr1(ctx, R):
             continue
         where = "%s:%d" % (c.module.relpath, c.node.lineno)
         # attributes stored by the constructor (own or inherited); with __slots__ anywhere in the hierarchy the name must be a slot
-        assigned = instance_attrs(prog, c)
+        assigned = dict(instance_attrs(prog, c))
+        # ... or by a method of the hierarchy the constructor delegates to (any `self.<name>` store target, tuple unpacking included)
+        for b_ in prog.mro(c):
+            for m_ in b_.methods.values():
+                for st_ in ast.walk(m_.node):
+                    if isinstance(st_, (ast.Assign, ast.AugAssign, ast.AnnAssign)):
+                        tg_ = st_.targets if isinstance(st_, ast.Assign) else [st_.target]
+                        for t_ in tg_:
+                            for n_ in ast.walk(t_):
+                                if isinstance(n_, ast.Attribute) and isinstance(n_.ctx, ast.Store) and isinstance(n_.value, ast.Name) and n_.value.id == "self":
+                                    if not any(x_[1] is st_ for x_ in assigned.get(n_.attr, [])):
+                                        assigned.setdefault(n_.attr, []).append((m_, st_))
         slot_lists = [prog.class_const(b, "__slots__") for b in prog.mro(c)]
         slotted = all(sl is not None for sl in slot_lists[:-1]) if len(slot_lists) > 1 else slot_lists[0] is not None
         slots = set(x for sl in slot_lists if sl for x in sl)
@@ -64,6 +75,8 @@ def sr1(ctx, R):
                 v = sy.expr(n.value, env)
                 if v[0] == "sub" and v[1] in (("global", "DAQMX_TYPES"), ("name", "DAQMX_TYPES")):
                     via_table = True
+        if not via_table and any(isinstance(x_, ast.Name) and x_.id == "DAQMX_TYPES" for fn, n in assigned.get("data_type", []) for x_ in ast.walk(fn.node)):
+            via_table = True      # looked up in the table inside a try / helper of the same method
         R.check(via_table, "%s::type code table" % c.qual, where, "data_type = DAQMX_TYPES[code]", "scaler data type is not taken from DAQMX_TYPES")
     # the three places that know the set of DAQmx index headers agree
     # the segment object factory, found by what it does: it constructs a DaqmxSegmentObject for some index headers
